@@ -36,7 +36,7 @@ pub const BERR_CODES: [u8; 8] = [0x00, 0x07, 0x0F, 0x17, 0x1D, 0x24, 0x2A, 0x2B]
 const IGNORABLE_IDS: &[u16] = &[0x0C, 0x31, 0x32, 0x7F, 0x80, 0x81 + 0x20, 0x0415, 0x1000, 0x3FFF, 0x0234];
 
 fn payload_len() -> impl Strategy<Value = u32> {
-    prop_oneof![4 => 0u32..12, 3 => proptest::sample::select(vec![0u32, 1, 127, 128, 129, 16383, 16384, 16385]), 1 => 0u32..20000]
+    prop_oneof![40 => 0u32..12, 30 => proptest::sample::select(vec![0u32, 1, 127, 128, 129, 16383, 16384, 16385]), 10 => 0u32..20000, 1 => proptest::sample::select(vec![2_097_151u32, 2_097_152, 2_097_153])]
 }
 
 fn text() -> impl Strategy<Value = String> {
@@ -85,7 +85,7 @@ fn rec_strategy(n_sst: u32) -> impl Strategy<Value = BbRec> {
 }
 
 fn sheet(name: String, n_sst: u32, n_styles: u32) -> impl Strategy<Value = BbSheet> {
-    let origin = (proptest::sample::select(vec![0u32, 0, 1, 65_535, 65_536, 1_048_555]), proptest::sample::select(vec![0u32, 0, 1, 25, 26, 255, 256, 702, 16_370]));
+    let origin = (proptest::sample::select(vec![0u32, 0, 1, 65_535, 65_536, 1_048_556]), proptest::sample::select(vec![0u32, 0, 1, 25, 26, 255, 256, 702, 16_371]));
     let cell = (rec_strategy(n_sst), 0..n_styles.max(1));
     (origin, proptest::collection::btree_map(0u32..20, (proptest::collection::btree_map(0u32..13, cell, 1..8), proptest::collection::vec((proptest::sample::select(IGNORABLE_IDS.to_vec()), payload_len()), 0..2)), 0..8), any::<u8>(), 0u8..3).prop_map(
         move |((r0, c0), rows, blocks, dim)| BbSheet {
@@ -177,6 +177,7 @@ fn oracle(case: &Case) -> Report {
                 let len = cell_record(c).len();
                 two_byte_len |= len > 130;
                 rep.label_if(len > 16_390, "record-length:3-bytes");
+                rep.label_if(len > 2_097_152, "record-length:4-bytes");
                 match &c.rec {
                     BbRec::Ignorable(id, l) => {
                         if real.first().map_or(false, |f| i > *f) && real.last().map_or(false, |l| i < *l) {
